@@ -182,12 +182,15 @@ def infer(inference_state, context, leaf):
     return definitions
 
 
-def filter_follow_imports(names, follow_builtin_imports=False):
+def filter_follow_imports(names, follow_builtin_imports=False, _followed=()):
     for name in names:
-        if name.is_import():
+        # Import cycles exist, therefore never follow the same import twice.
+        key = getattr(name, 'tree_name', None) or name
+        if name.is_import() and key not in _followed:
             new_names = list(filter_follow_imports(
                 name.goto(),
                 follow_builtin_imports=follow_builtin_imports,
+                _followed=_followed + (key,),
             ))
             found_builtin = False
             if follow_builtin_imports:
